@@ -295,7 +295,7 @@ Section DMRG.
     split; [rewrite N1; exact Hn1|].
     set (r := get (trmx C) 0 0).
     assert (Hamp : forall w, In w (words d L) -> amp (X :: Ar) w = kmul K r (amp (Aq :: Ar) w)).
-    { intros w Hw. rewrite <- gwords_repeat, <- HL in Hw. cbn [repeat] in Hw.
+    { intros w Hw. rewrite <- gwords_repeat, <- HL in Hw. change (In w (gwords (d :: repeat d (length Ar)))) in Hw.
       apply in_gwords_cons in Hw. destruct Hw as (s & w' & -> & Hs1 & Hw').
       assert (C1 : chain_ok (d :: repeat d (length Ar)) (1 :: Dar :: DsAr) (X :: Ar)) by (apply chain_ok_cons; assumption).
       assert (C2 : chain_ok (d :: repeat d (length Ar)) (1 :: Dar :: DsAr) (Aq :: Ar)) by (apply chain_ok_cons; assumption).
